@@ -348,6 +348,9 @@ def run_inventory(F, rep, tier, pid, roots, floors, what):
     seen, pred = G.reach(roots)
     fam = Families(F, G)
     audits = load_audits()
+    audits_by_base = defaultdict(list)
+    for k in audits:
+        audits_by_base[k.rsplit("#", 1)[0]].append(k)
     # the LALR driver proof feeds the driver family
     driver_ok = False
     _, T, _ = load_lalr(F, rep, r1)
@@ -378,19 +381,26 @@ def run_inventory(F, rep, tier, pid, roots, floors, what):
                 by_rule[d[0]] += 1
                 rep.ok(r1, key, "%s: %s" % d)
                 continue
-            au = audits.get(key)
-            if au is not None:
-                used_audits.add(key)
-                sigs = {g1_panic.guard_sig(f) for f in A.facts_at(s.block)}
+            # audited entries are matched per (function, kind, callee/assert) as a multiset: the entry with the same
+            # occurrence number first, otherwise any unused entry of the same base whose recorded guards hold here -
+            # so that adding or removing a *discharged* site of the same kind in the function does not shift the keys
+            sigs = {g1_panic.guard_sig(f) for f in A.facts_at(s.block)}
+            base = key.rsplit("#", 1)[0]
+            cands = [k for k in audits_by_base.get(base, ()) if k not in used_audits]
+            cands.sort(key=lambda k: (k != key, k))
+            hit = next((k for k in cands if all(g in sigs for g in audits[k].get("guards", []))), None)
+            if hit is not None:
+                used_audits.add(hit)
+                by_rule["audited"] += 1
+                rep.ok(r1, key, audits[hit]["reason"], how="audited")
+                continue
+            if cands:
+                au = audits[cands[0]]
                 lost = [g for g in au.get("guards", []) if g not in sigs]
-                if lost:
-                    rep.violation(r1, key, "audited site lost its guard(s) %s (audit: %s); reachable via %s" % (lost, au["reason"], path_text(G, pred, n)), where)
-                else:
-                    by_rule["audited"] += 1
-                    rep.ok(r1, key, au["reason"], how="audited")
+                rep.violation(r1, key, "audited site lost its guard(s) %s (audit: %s); reachable via %s" % (lost, au["reason"], path_text(G, pred, n)), where)
                 continue
             rep.violation(r1, key, "%s %s in %s is neither discharged nor audited (guards in force: %s); reachable via %s"
-                          % (s.kind, s.what, n, sorted({g1_panic.guard_sig(f) for f in A.facts_at(s.block)})[:6], path_text(G, pred, n)), where)
+                          % (s.kind, s.what, n, sorted(sigs)[:6], path_text(G, pred, n)), where)
     rep.analysed.update(dict(entry_points=len(roots), reachable_bodies=len(seen), panic_capable_sites=nsites, discharged_by_rule=dict(by_rule),
                              assumed_total_externals=len({p for n in seen for (p, _, _, _) in G.ext_calls.get(n, ()) if p and not g1_panic.panic_api(p)})))
     rep.floor(r1, "reachable bodies", len(seen), floors["bodies"])
